@@ -17,6 +17,7 @@ MAX = opt('--max', 300)
 JOBS = opt('--jobs', 14)
 OUT = opt('--out', '/tmp/mutation_survey.json')
 ONLY = [a for i, a in enumerate(args) if i > 0 and args[i - 1] == '--only']
+EXCLUDE = opt('--exclude', '')          # report of an earlier run: its mutants are not drawn again
 
 anchors = collections.defaultdict(set)
 for l in open(os.path.join(ROOT, 'properties.jsonl')):
@@ -158,6 +159,15 @@ def main():
         if k not in seen:
             seen.add(k)
             uniq.append(j)
+    if EXCLUDE and os.path.exists(EXCLUDE):
+        done = set()
+        for x in json.load(open(EXCLUDE)):
+            done.add((x['file'], x['function'], x['mutation'], x.get('line')))
+        def line_of(j):
+            return open(os.path.join('/repo', j[0])).read()[:j[3]].count('\n') + 1
+        before = len(uniq)
+        uniq = [j for j in uniq if (j[0], j[1], j[2], line_of(j)) not in done]
+        print("excluding %d mutants of %s" % (before - len(uniq), EXCLUDE), flush=True)
     rnd.shuffle(uniq)
     by_fn = collections.defaultdict(list)
     for j in uniq:
